@@ -2,7 +2,7 @@ ID = "C03"
 
 PROP = {
     "level": "exploration",
-    "rule": ("1-6 flows whose URL patterns come from a pool of <=3 overlapping patterns (hosts h.com/api.h.com, segments a,b,c,{x}, length 0-3, optional trailing /*), "
+    "rule": ("1-6 flows whose URL patterns come from a pool of <=3 overlapping patterns (hosts h.com/api.h.com, segments a,b,c,{x}, length 0-3, optional trailing /*; now and then a flow spells {x} as {y}: such a flow - in the e2e unit the whole set - may be refused and is then not judged), "
              "each with independent optional method list, header, query-parameter and status-code constraints; 1-8 transactions derived from the patterns "
              "(parameters instantiated, then mutated: extra trailing segments, missing last segment, other literal, host only, other host) x method x header/query hit-or-miss "
              "x request/response with status. Unit 1 adds the flows to the real FilterTree (stub flows, real streamconfig.Filter) in 2-3 generated load orders and reads "
